@@ -47,6 +47,26 @@ def gen_mutex_race(rng: random.Random) -> dict:
     return {"program": [{"name": "g0", "nodes": nodes, "bound": []}], "values": [["x", rng.randint(0, 3)]], "cfg": {}}
 
 
+def gen_shared_target(rng: random.Random) -> dict:
+    """One node that is a target of TWO (or three) gates deciding differently: whether it runs must not depend on the order in which
+    the gates are listed (some gate routes to it -> it runs)."""
+    k = rng.choice([2, 2, 3])
+    nodes: list[dict] = [{"name": "T", "kind": "fn", "params": [["x", None]], "dataOuts": ["t_out"], "body": {"b": "tag", "t": "T"}}]
+    values = [["x", rng.randint(0, 3)]]
+    for i in range(k):
+        other = f"o{i}"
+        to_t = rng.random() < 0.5
+        dflt = "T" if to_t else rng.choice([other, "__END__"])
+        nodes.append({"name": f"g{i}", "kind": "route", "params": [[f"c{i}", None]], "targets": ["T", other, "__END__"], "multiTarget": False, "fallback": None,
+                      "defaultOpen": rng.random() < 0.6, "body": {"b": "table", "rows": [], "dflt": dflt}})
+        nodes.append({"name": other, "kind": "fn", "params": [["x", None]], "dataOuts": [f"r{i}"], "body": {"b": "tag", "t": other}})
+        values.append([f"c{i}", i])
+    if rng.random() < 0.5:
+        nodes.append({"name": "after", "kind": "fn", "params": [["t_out", None]], "dataOuts": ["fin"], "body": {"b": "tag", "t": "after"}})
+    rng.shuffle(nodes)
+    return {"program": [{"name": "g0", "nodes": nodes, "bound": []}], "values": values, "cfg": {}}
+
+
 class C02(RunProp):
     id = "C02"
     level = "proof"
@@ -62,9 +82,11 @@ class C02(RunProp):
     def cases(self, rng: random.Random, tier: str) -> Iterable[dict]:
         gens = [lambda: gen.gen_dag_program(rng, max_nodes=8, depth=rng.choice([0, 1, 2])), lambda: gen.gen_gated_cfg(rng),
                 lambda: gen.gen_loop_bounded(rng), lambda: gen.gen_failing_dag(rng), lambda: gen.gen_map_node(rng)]
-        gens = gens * 2 + [lambda: gen_mutex_race(rng), lambda: gen.gen_map_node(rng, force="raise-multi")]
+        gens = gens * 2 + [lambda: gen_mutex_race(rng), lambda: gen.gen_map_node(rng, force="raise-multi"), lambda: gen_shared_target(rng)]
+        # the dedicated families are visited several times per run, whatever the seed
+        forced = [lambda: gen_shared_target(rng), lambda: gen_mutex_race(rng), lambda: gen.gen_map_node(rng, force="raise-multi")] * 3
         while True:
-            c = rng.choice(gens)()
+            c = forced.pop()() if forced else rng.choice(gens)()
             if continue_map_with_failing_items(c["program"]):
                 # a continue-mode map keeps the outer run alive while items fail inside it; the sync runner stops a failing
                 # item at its first failing node, the async runner lets that item's step finish: invocation multisets differ.
